@@ -24,6 +24,7 @@ type Env struct {
 	phi     map[*ssa.Phi]string
 	fn      *ssa.Function // function whose locals may be named
 	hints   []string
+	cur     *State // state in which now(...) is evaluated (set when entering old(...))
 }
 
 type specErr struct{ msg string }
@@ -344,7 +345,11 @@ func (env *Env) tr(e Expr) Val {
 		if env.old == nil {
 			sfail("old() not available here")
 		}
-		return env.inState(env.old).tr(x.X)
+		n := env.inState(env.old)
+		if n.cur == nil {
+			n.cur = env.st
+		}
+		return n.tr(x.X)
 	case *ESel:
 		// qualified constant pkg.Name?
 		if id, ok := x.X.(*EIdent); ok {
@@ -835,6 +840,12 @@ func (env *Env) call(c *ECall) Val {
 			return env.adapt(v, to)
 		}
 		return Val{env.ex.convert(v.G.T, to.T, v.S), to}
+	case "now": // inside old(...): evaluate in the current state
+		need(1)
+		if env.cur == nil {
+			return arg(0)
+		}
+		return env.inState(env.cur).tr(c.Args[0])
 	case "mi": // mathematical integer value of a machine integer
 		need(1)
 		v := env.value(arg(0))
